@@ -113,7 +113,7 @@ func init() {
 			"Non-trivial: a node-set operand has >= 2 nodes, or a boolean operator saw both operands; distinct by (expression text, document, context).",
 		Assume:        []string{"reference evaluator internal/xref (existential comparison semantics, XPath number lexing, short-circuit)"},
 		MinNontrivial: tierN(6000, 80000),
-		Required:      []string{"cell:nodeset-number", "cell:number-nodeset", "cell:nodeset-string", "cell:string-nodeset", "cell:nodeset-nodeset", "cell:number-number", "cell:string-string", "shortcircuit", "shape:booleanQuery", "shape:logicalQuery"},
+		Required:      []string{"cell:nodeset-number", "cell:number-nodeset", "cell:nodeset-string", "cell:string-nodeset", "cell:nodeset-nodeset", "cell:number-number", "cell:string-string", "shortcircuit"},
 		Families: []Family{
 			witnessFamily("C07"),
 			{Name: "matrix", N: tierN(1200, 12000), Run: c07Matrix},
